@@ -141,6 +141,45 @@ def run(ctx: Ctx) -> None:
         v = outs[0].value.get("name") if outs and outs[0].kind == "return" else None
         ctx.check(v == SStr([Atom("second", free=True)]), "B2", f"duplicate keyword keeps its last value, flags {flags}", repo.loc("transformer", repo.func("transformer.MapfileTransformer.composite")), "", f"NAME given twice yields {v!r} with position={flags[0]} comments={flags[1]}")
 
+    # ---- B6 composed: what the transformer builds under the flags, printed ---------------------------------
+    ctx.rule("B6", "a LAYER built by composite() under include_comments / include_position from attributes of which only some carry comments (a keyword, a repeated keyword given three times) prints, comment pieces apart, the lines of the plain LAYER", 3)
+    from .. import printer as _pr
+
+    def build_layer(XX, commented: set):
+        def a_(word, nm):
+            kt = models.token("UNQUOTED_STRING", SStr.atom("kw", lower_is=word))
+            vt = models.token("DOUBLE_QUOTED_STRING", SStr(['"', Atom(nm, free=True, first=_pr.WORD, last=_pr.WORD, excludes=frozenset("\"'`")), '"']))
+            d = XX.eval_callback("attr", lambda: [kt, XX.eval_callback("string", lambda: [vt])[0].value])[0].value
+            if nm in commented:
+                d["__comments__"] = [SStr(["# ", Atom(f"COMMENT_{nm}", excludes=frozenset("\n"))])]
+            return d
+
+        body = [a_("name", "n"), a_("processing", "p1"), a_("processing", "p2"), a_("processing", "p3"), a_("group", "g")]
+        outs = XX.eval_callback("composite", lambda: [[models.token("LAYER", SStr.atom("kw", lower_is="layer"))], body])
+        if len(outs) != 1 or outs[0].kind != "return":
+            raise AnalysisError(f"composite not evaluable: {[(o.kind, o.exc) for o in outs]}")
+        return outs[0].value
+
+    def printed(d):
+        Ip = e.interp(allow_fork=False)
+        outs = Ip.explore("pprint.PrettyPrinter._format", lambda: (models.printer(Ip, quote='"', indent=2, end_comment=False), [d], {"level": 0}))
+        if len(outs) != 1 or outs[0].kind != "return":
+            return f"raises {outs[0].exc}"
+        out_ = []
+        for ln in outs[0].value:
+            t_ = pai.as_sstr(ln).describe()
+            if "# <COMMENT" in t_:
+                t_ = t_[: t_.index("# <COMMENT")].rstrip()
+            if t_.strip():
+                out_.append(t_)
+        return out_
+
+    plain_lines = printed(build_layer(runs[(False, False)], set()))
+    for commented in ({"p1"}, {"p2"}, {"n", "p3"}):
+        for flags in ((False, True), (True, True)):
+            got = printed(build_layer(runs[flags], commented))
+            ctx.check(got == plain_lines, "B6", f"comments on {sorted(commented)}, position={flags[0]} comments={flags[1]}", repo.loc("pprint", repo.func("pprint.PrettyPrinter._format")), f"{len(plain_lines)} lines", f"a LAYER (NAME, PROCESSING x3, GROUP) whose attributes {sorted(commented)} carry comments prints {got}, the plain LAYER prints {plain_lines}: keeping comments changes what is written")
+
     # ---- B3 ------------------------------------------------------------------------------------------
     ctx.rule("B3", "CommentsTransformer callbacks return the main transformer's result with stores under __comments__ only", 4)
     _comments_transformer(ctx, e)
